@@ -35,3 +35,5 @@ package keeper
 //@   fails_if [C14] #c14-breaker-of-the-vaults-app: vf0 && k.esm.GetKillSwitchData(ctx, v0.AppId).0.BreakerEnable
 //@   fails_if [C14] #c14-esm-of-the-vaults-app: vf0 && k.esm.GetESMStatus(ctx, v0.AppId).1 && k.esm.GetESMStatus(ctx, v0.AppId).0.Status
 //@   ensures [C09] #c09-only-unsafe-vaults-are-seized: ok && vf0 && !k.vault.GetVault(ctx, msg.VaultId).1 ==> old(k.vault.CalculateCollateralizationRatio(ctx, v0.ExtendedPairVaultID, v0.AmountIn, v0.AmountOut + v0.InterestAccumulated + v0.ClosingFeeAccumulated).1 == nil && k.vault.CalculateCollateralizationRatio(ctx, v0.ExtendedPairVaultID, v0.AmountIn, v0.AmountOut + v0.InterestAccumulated + v0.ClosingFeeAccumulated).0 < k.asset.GetPairsVault(ctx, v0.ExtendedPairVaultID).0.MinCr)
+//@   requires #count-covers-this-vault: vf0 ==> k.vault.GetLengthOfVault(ctx) >= 1
+//@   ensures [C09] #c09-vault-list-length-follows-the-seizure: ok && vf0 ==> k.vault.GetLengthOfVault(ctx) == old(k.vault.GetLengthOfVault(ctx)) - ite(k.vault.GetVault(ctx, msg.VaultId).1, 0, 1)
